@@ -62,7 +62,9 @@ _cache: dict = {}
 
 
 def _flags(case):
-    key = id(case)
+    from vlib.runner import chash
+
+    key = chash(case)
     if key not in _cache:
         _cache.clear()
         _cache[key] = flags_of(case)
